@@ -645,6 +645,10 @@ func (p *G1Affine) setBytes(buf []byte, subGroupCheck bool) (int, error) {
 		return 0, errors.New("invalid compressed coordinate: square root doesn't exist")
 	}
 
+	if Y.IsZero() && mData == mCompressedLargest {
+		// y = 0 is its own opposite: only the 'smallest' flag encodes it
+		return 0, errors.New("invalid compressed coordinate: y = 0 with the largest flag")
+	}
 	if Y.LexicographicallyLargest() {
 		// Y ">" -Y
 		if mData == mCompressedSmallest {
@@ -686,6 +690,10 @@ func (p *G1Affine) unsafeComputeY(subGroupCheck bool) error {
 		return errors.New("invalid compressed coordinate: square root doesn't exist")
 	}
 
+	if Y.IsZero() && mData == mCompressedLargest {
+		// y = 0 is its own opposite: only the 'smallest' flag encodes it
+		return errors.New("invalid compressed coordinate: y = 0 with the largest flag")
+	}
 	if Y.LexicographicallyLargest() {
 		// Y ">" -Y
 		if mData == mCompressedSmallest {
